@@ -120,25 +120,6 @@ func (p SpendPolicy) Address() Address {
 
 // Verify verifies that p is satisfied by the supplied inputs.
 func (p SpendPolicy) Verify(height uint64, medianTimestamp time.Time, sigHash Hash256, sigs []Signature, preimages [][32]byte) error {
-	// a policy nested more deeply than the decoder allows could be satisfied
-	// in memory but never be read back from its encoding by anyone else
-	var tooDeep func(p SpendPolicy, depth int) bool
-	tooDeep = func(p SpendPolicy, depth int) bool {
-		if depth > maxPolicyDepth {
-			return true
-		}
-		if t, ok := p.Type.(PolicyTypeThreshold); ok {
-			for _, sp := range t.Of {
-				if tooDeep(sp, depth+1) {
-					return true
-				}
-			}
-		}
-		return false
-	}
-	if tooDeep(p, 0) {
-		return fmt.Errorf("policy exceeds maximum nesting depth of %d", maxPolicyDepth)
-	}
 	nextSig := func() (sig Signature, ok bool) {
 		if ok = len(sigs) > 0; ok {
 			sig, sigs = sigs[0], sigs[1:]
@@ -154,8 +135,18 @@ func (p SpendPolicy) Verify(height uint64, medianTimestamp time.Time, sigHash Ha
 	const maxPolicies = 1024
 	var totalPolicies int
 	errOpaque := errors.New("opaque policy")
-	var verify func(SpendPolicy) error
-	verify = func(p SpendPolicy) error {
+	// NOTE: a policy nested more deeply than the decoder allows could be
+	// satisfied in memory but never be read back from its encoding by anyone
+	// else. Every node of an accepted policy is visited (or is an opaque or
+	// unlock-conditions child of a visited threshold), so tracking the depth
+	// here covers the whole policy without a separate walk, which the
+	// maxPolicies limit would not bound.
+	errTooDeep := fmt.Errorf("policy exceeds maximum nesting depth of %d", maxPolicyDepth)
+	var verify func(SpendPolicy, int) error
+	verify = func(p SpendPolicy, depth int) error {
+		if depth > maxPolicyDepth {
+			return errTooDeep
+		}
 		switch p := p.Type.(type) {
 		case PolicyTypeAbove:
 			if height >= uint64(p) {
@@ -182,6 +173,8 @@ func (p SpendPolicy) Verify(height uint64, medianTimestamp time.Time, sigHash Ha
 		case PolicyTypeThreshold:
 			if totalPolicies += len(p.Of); totalPolicies > maxPolicies || len(p.Of) > 255 {
 				return errors.New("policy is too complex")
+			} else if len(p.Of) > 0 && depth+1 > maxPolicyDepth {
+				return errTooDeep
 			}
 			var satisfied uint8
 			for _, sp := range p.Of {
@@ -193,7 +186,7 @@ func (p SpendPolicy) Verify(height uint64, medianTimestamp time.Time, sigHash Ha
 				default:
 					if satisfied == p.N {
 						return errors.New("threshold exceeded")
-					} else if err := verify(sp); err != nil {
+					} else if err := verify(sp, depth+1); err != nil {
 						return err // fatal; should have been opaque
 					}
 					satisfied++
@@ -206,7 +199,7 @@ func (p SpendPolicy) Verify(height uint64, medianTimestamp time.Time, sigHash Ha
 		case PolicyTypeOpaque:
 			return errOpaque
 		case PolicyTypeUnlockConditions:
-			if err := verify(PolicyAbove(p.Timelock)); err != nil {
+			if err := verify(PolicyAbove(p.Timelock), depth); err != nil {
 				return err
 			}
 			for i, pk := range p.PublicKeys {
@@ -237,7 +230,7 @@ func (p SpendPolicy) Verify(height uint64, medianTimestamp time.Time, sigHash Ha
 			panic("invalid policy type") // developer error
 		}
 	}
-	if err := verify(p); err != nil {
+	if err := verify(p, 0); err != nil {
 		return err
 	} else if len(sigs) > 0 {
 		return errors.New("superfluous signature(s)")
